@@ -585,6 +585,11 @@ mod fixtures {
             fx!(std tpl; ("tab\there"); []; []),
             fx!(std tpl; ("quote \" q {x}"); ["x": V::Int(42)]; []),
             fx!(std tpl; ("back\\slash\n{s}\r\0\x41\'"); ["s": st("ab")]; []),
+            fx!(std tpl; ("\\{{x}}\\"); []; []),
+            fx!(std tpl; ("a\\{x}\n"); ["x": V::Int(42)]; []),
+            fx!(std tpl; ("\"{s}\""); ["s": st("ab")]; []),
+            fx!(std tpl; ("{{\t}}{x}\x7e"); ["x": V::Int(42)]; []),
+            fx!(nostd notpl; ("{#[emit::fmt(\">4\")] z: 7}\t{{{w: \"}\"}"); ["z": V::Int(7), "w": st("}")]; []),
         ]
     }
 }
